@@ -105,7 +105,12 @@ Section Rules.
   Qed.
   Lemma nthN_setN {A} (l : list A) (i : N) (x : A) : i < N.of_nat (length l) -> nthN (setN l i x) i = Some x.
   Proof.
-    intros Hi. unfold nthN, setN, updN. rewrite nth_upd_nat by lia.
+    intros Hi. unfold nthN, setN, updN.
+    assert (Hlen : forall (l : list A) (k : nat) g, length (upd_nat l k g) = length l).
+    { clear. induction l as [|y l IH]; intros k g; [reflexivity|]. destruct k; simpl; [reflexivity|]. now rewrite IH. }
+    destruct (N.ltb_spec i (N.of_nat (length l))); [|lia].
+    rewrite Hlen. destruct (N.ltb_spec i (N.of_nat (length l))); [|lia].
+    rewrite nth_upd_nat by lia.
     destruct (nth_error l (N.to_nat i)) eqn:Hn; [reflexivity|]. apply nth_error_None in Hn. lia.
   Qed.
   Theorem process_slot_caches_state_root f st :
